@@ -87,11 +87,13 @@ fn first_diff_key<'a>(normal: &'a str, other: &'a str) -> &'a str {
 }
 
 /// PROTOCOL.md §4.1: the view dump from an 8-byte aligned start, then the same dump on copies at
-/// addresses `8*m + 1`, `+ 2`, `+ 3`, reported in the one key `shift_same`.
+/// addresses `8*m + 1`, `+ 2`, `+ 3`, reported in the one key `shift_same`; the accessors called
+/// again on the same object and last-to-first on a fresh one, reported in `again_same`.
 fn run_parse(out: &mut Out, kind: Kind, bytes: &[u8]) {
     let aligned = Placed::new(bytes, 0);
     debug_assert_eq!(aligned.bytes().as_ptr() as usize % 8, 0);
-    view::dump_kind(out, "", kind, aligned.bytes());
+    // the normal dump, and `again_same` (none for more than 70000 bytes either)
+    let again = view::dump_kind_verdict(out, "", kind, aligned.bytes());
     if bytes.len() > SHIFT_MAX_LEN {
         return;
     }
@@ -107,6 +109,9 @@ fn run_parse(out: &mut Out, kind: Kind, bytes: &[u8]) {
         }
     }
     out.kv("", "shift_same", &verdict);
+    if let Some(v) = again {
+        out.kv("", "again_same", &v);
+    }
 }
 
 /// The transcript lines of one request (without the `#k` line).
